@@ -130,3 +130,40 @@ Proof.
       * split; [rewrite <- app_assoc, <- Hs; symmetry; apply firstn_skipn|].
         cbn [vals_ok val_ok]. split; [apply firstn_length_le; exact E | exact Hok].
 Qed.
+
+(* ---- the byte length of a layout, and of what the encoder writes for it *)
+Definition fld_len (f : fld) : nat := match f with FU w => w | FB n => n end.
+Fixpoint layout_len (l : list fld) : nat := match l with [] => O | f :: r => (fld_len f + layout_len r)%nat end.
+
+Lemma layout_len_app a b : layout_len (a ++ b) = (layout_len a + layout_len b)%nat.
+Proof. induction a as [|f a IH]; cbn [app layout_len]; [reflexivity | rewrite IH; lia]. Qed.
+Lemma layout_len_rep k l : layout_len (rep k l) = (k * layout_len l)%nat.
+Proof. induction k as [|k IH]; cbn [rep]; [reflexivity | rewrite layout_len_app, IH; lia]. Qed.
+
+Lemma enc_fields_length l : forall vs bs, enc_fields l vs = Some bs -> length bs = layout_len l.
+Proof.
+  induction l as [|f l IH]; intros vs bs H.
+  - destruct vs; cbn in H; [injection H as <-; reflexivity | discriminate].
+  - destruct f as [w|n]; destruct vs as [|[z|b] vs]; cbn [enc_fields] in H; try discriminate.
+    + destruct (enc_fields l vs) as [r|] eqn:E; [|discriminate]. injection H as <-.
+      rewrite app_length, be_length, (IH _ _ E). reflexivity.
+    + destruct (Nat.eqb (length b) n) eqn:En; [|discriminate]. apply Nat.eqb_eq in En.
+      destruct (enc_fields l vs) as [r|] eqn:E; [|discriminate]. injection H as <-.
+      rewrite app_length, (IH _ _ E), En. reflexivity.
+Qed.
+
+(* the auxiliary-information size of one senc sample (what saiz lists for it) *)
+Definition senc_sample_size (flags : Z) (iv : nat) (c : option nat) : nat :=
+  (iv + (if Z.testbit flags 1 then match c with Some k => 2 + 6 * k | None => 0 end else 0))%nat.
+Lemma list_sum_cons a l : list_sum (a :: l) = (a + list_sum l)%nat.
+Proof. reflexivity. Qed.
+Lemma senc_samples_len flags iv counts :
+  layout_len (l_senc_samples flags iv counts) = list_sum (map (senc_sample_size flags iv) counts).
+Proof.
+  induction counts as [|c r IH]; cbn [l_senc_samples map]; [reflexivity|].
+  rewrite layout_len_app, IH, list_sum_cons. f_equal. unfold senc_sample_size.
+  destruct (Z.testbit flags 1); [destruct c as [k|]|]; cbn [layout_len fld_len app].
+  - rewrite layout_len_rep. cbn [layout_len fld_len]. lia.
+  - lia.
+  - lia.
+Qed.
